@@ -286,8 +286,79 @@ func checkCodecCase(c *rt.C, prop string, env *codecEnv, m *dynamicpb.Message, c
 		c.Violate("roundtrip/differs/"+where, fmt.Sprintf("decode(encode(m)) != m for %s (first difference: %s)\n m  = %s\n m' = %s\n json = %s", full, where, rt.Clip(msgText(n1.Interface()), 500), rt.Clip(msgText(n2.Interface()), 500), rt.Clip(string(b), 500)), d)
 		return
 	}
+	if prop == "C01" {
+		checkJ5AnyJSONForm(c, env, m, d)
+	}
 	if c.WantSample() && nontrivial && len(b) > 60 {
 		c.Sample(map[string]any{"type": full, "json": rt.Clip(string(b), 600), "class": class})
+	}
+}
+
+// checkJ5AnyJSONForm: the same message with its singular j5 Any fields in the JSON form (j5_json holding the
+// encoder's own, compact, text for the payload; this is the form every decoded message has). Nothing in that
+// form needs normalising: the decoded field must carry the same bytes.
+func checkJ5AnyJSONForm(c *rt.C, env *codecEnv, m *dynamicpb.Message, d map[string]any) {
+	tm := env.model.msg(string(m.Descriptor().FullName()))
+	if tm == nil {
+		return
+	}
+	var m3 *dynamicpb.Message
+	want := map[string][]byte{}
+	for _, tf := range tm.Fields {
+		if tf.Kind != kJ5Any || tf.Card != "" {
+			continue
+		}
+		fd := m.Descriptor().Fields().ByName(protoreflect.Name(tf.Name))
+		if fd == nil || !m.Has(fd) {
+			continue
+		}
+		am := m.Get(fd).Message()
+		ad := am.Descriptor().Fields()
+		name := am.Get(ad.ByName("type_name")).String()
+		pb := am.Get(ad.ByName("proto")).Bytes()
+		inner, err := env.decodeAny(name, pb, nil)
+		if err != nil {
+			continue
+		}
+		var x []byte
+		ok, _, _, _ := rt.Guard(func() { x, err = env.codec.ProtoToJSON(inner.ProtoReflect()) })
+		if !ok || err != nil {
+			continue // reported by the case of the inner type itself
+		}
+		if m3 == nil {
+			m3 = dynamicpb.NewMessage(m.Descriptor())
+			proto.Merge(m3, m)
+		}
+		am3 := m3.Mutable(fd).Message()
+		am3.Clear(ad.ByName("proto"))
+		am3.Set(ad.ByName("j5_json"), protoreflect.ValueOfBytes(x))
+		want[tf.Name] = x
+	}
+	if m3 == nil {
+		return
+	}
+	var b3 []byte
+	var err error
+	ok, _, _, _ := rt.Guard(func() { b3, err = env.codec.ProtoToJSON(m3) })
+	if !ok || err != nil {
+		c.Violate("roundtrip/j5any-json-form/encode", fmt.Sprintf("ProtoToJSON fails on a message whose j5 Any holds the encoder's own JSON: %v", err), d)
+		return
+	}
+	m4 := dynamicpb.NewMessage(m.Descriptor())
+	ok, _, _, _ = rt.Guard(func() { err = env.codec.JSONToProto(b3, m4) })
+	if !ok || err != nil {
+		c.Violate("roundtrip/j5any-json-form/decode", fmt.Sprintf("JSONToProto fails on the encoding of a message whose j5 Any holds the encoder's own JSON: %v", err), d)
+		return
+	}
+	for _, name := range rt.SortedKeys(want) {
+		fd := m4.Descriptor().Fields().ByName(protoreflect.Name(name))
+		am := m4.Get(fd).Message()
+		got := am.Get(am.Descriptor().Fields().ByName("j5_json")).Bytes()
+		c.Event("j5any_json_form_round_trips")
+		if string(got) != string(want[name]) {
+			c.Violate("roundtrip/differs/j5any-json-form", fmt.Sprintf("a j5 Any in JSON form does not come back as it went in (field %s):\n in  j5_json = %s\n out j5_json = %s", name, rt.Clip(string(want[name]), 400), rt.Clip(string(got), 400)), d)
+			return
+		}
 	}
 }
 
